@@ -11,6 +11,6 @@ fn probe_timing() {
         code.extend(hx(p[2]));
         let t = std::time::Instant::now();
         let r = analyze(&code, true);
-        println!("PROBE {one} -> {} in {} ms", match r { Out::Panic => "PANIC".to_string(), Out::Err(e) => format!("Err {}", &e[..e.len().min(60)]), Out::Ok(s) => format!("Ok {} slots", s.len()) }, t.elapsed().as_millis());
+        println!("PROBE {one} -> {} in {} ms", match r { Out::Panic => "PANIC".to_string(), Out::Err(e) => format!("Err {}", &e[..e.len().min(60)]), Out::Ok(s) => format!("Ok {} slots {:?}", s.len(), s.iter().map(|(i, o)| format!("{i:#x}@{o}")).collect::<Vec<_>>()) }, t.elapsed().as_millis());
     }
 }
